@@ -15,14 +15,11 @@
  *   C01.bp.enqueue.fail_stop  ret != 0 <==> a callee failed; a block the pool
  *              refused is the new head of the free list in front of the old
  *              list, the status is the pool's (SQFS_ERROR_ALLOC if it has
- *              none); after a failed copy allocation nothing was submitted
- *              and ret == SQFS_ERROR_ALLOC
+ *              none); after a failed copy allocation nothing was submitted,
+ *              ret == SQFS_ERROR_ALLOC and the block is on the free list too
  *
- * Observation (not a C01 obligation): after a failed copy allocation the
- * block is neither submitted nor on the free list; both callers drop their
- * pointer, so it is leaked. Only fragment blocks (backend) take that path;
- * the blocks append / add_sentinel_block hand over never carry
- * SQFS_BLK_FRAGMENT_BLOCK (asserted as ENQ's precondition on their side).
+ * (Until fix 1bda2ca a block was dropped after a failed copy allocation - the
+ * leak worker w17 turned into C13.bp.no_orphan.)
  */
 #include "w14_bp_model.h"
 
@@ -212,8 +209,11 @@ void harness(void)
 			     g_p.proc.free_list == fl0 && g_blk.b.next == h0.next,
 			     "C01.bp.enqueue.submitted");
 	} else if (g_alloc_failed) {
+		/* since fix 1bda2ca the refused block goes back to the free
+		 * list here as well (it used to be dropped: C13.bp.no_orphan) */
 		VERIF_ASSERT(ret == SQFS_ERROR_ALLOC && g_submit_calls == 0 &&
-			     g_p.proc.free_list == fl0, "C01.bp.enqueue.fail_stop");
+			     g_p.proc.free_list == &g_blk.b && g_blk.b.next == fl0,
+			     "C01.bp.enqueue.fail_stop");
 	} else {
 		VERIF_ASSERT(g_submit_failed && g_status_calls == 1 &&
 			     ret == (g_status != 0 ? g_status : SQFS_ERROR_ALLOC) &&
